@@ -47,13 +47,15 @@ Definition final_system : list prog :=
 Definition has_worker (name : string) : bool :=
   existsb (fun g => String.eqb (g_name g) name && g_replicated g && g_joined g) goroutines.
 
-(* the finite check on the generated summary *)
-Definition summary_ok : bool :=
-  forallb (disc_from pol_mid []) (scan_mid :: map g_prog goroutines)
-  && forallb (disc_from pol_final []) final_system
-  && forallb (fun g => implb (g_replicated g) (g_joined g)) goroutines
+(* the finite checks on the generated summary *)
+Definition check_mid : bool := forallb (disc_from pol_mid []) (scan_mid :: map g_prog goroutines).
+Definition check_final : bool := forallb (disc_from pol_final []) final_system.
+Definition check_shape : bool :=
+  forallb (fun g => implb (g_replicated g) (g_joined g)) goroutines
   && has_worker "matcherJob" && has_worker "fetcherJob"
   (* the matchers really count: the summary of matcherJob contains the atomic update of certsProcessed *)
   && existsb (fun g => String.eqb (g_name g) "matcherJob" &&
                        existsb (fun a => match a with AtomicRMW "certsProcessed" => true | _ => false end) (g_prog g))
              goroutines.
+
+Definition summary_ok : bool := check_mid && check_final && check_shape.
